@@ -176,3 +176,23 @@ Theorem C20_record_array_read_back : forall base tb (L : list cell) mem, 0 <= ba
   forall c k, In c L -> f_len (snd (fst c)) <= maxlen k ->
     do_read mem' base k (fst (fst c) * tb + f_off (snd (fst c))) (f_len (snd (fst c))) = snd c.
 Proof. exact record_array_read_back. Qed.
+
+(* ---- lm/trie.cc BitPackedMiddle<DontBhiksha> over the generated routines is a sorted array of (word, payload, child range)
+        records: after Insert* and FinishedLoading on zeroed memory, Find of a word inside a parent range whose words are sorted
+        returns the record holding it (index, payload, [its next pointer, the following record's next pointer)) and reports
+        absence exactly when no record of the range holds the word. *)
+From Kenlm Require Import C20.MiddleModel C20.MiddleProofs.
+Theorem C20_middle_array_refines_sorted_records : forall m, 0 <= m_base m -> 0 <= m_wb m <= 57 -> 0 <= m_qb m <= 57 -> 0 <= m_nb m <= 57 ->
+  forall recs next_end mem0, Forall (rec_ok m) recs -> 0 <= next_end < 2 ^ m_nb m ->
+  (forall i, 8 * m_base m <= i < 8 * m_base m + (Z.of_nat (length recs) + 1) * m_tb m -> Z.testbit mem0 i = false) ->
+  forall fuel word b e, 0 <= b -> b <= e -> e <= Z.of_nat (length recs) -> m_max_vocab m < 2 ^ 32 ->
+  (forall i j, b <= i -> i <= j -> j < e -> word_of recs i <= word_of recs j) ->
+  (forall i, b <= i < e -> word_of recs i <= m_max_vocab m) -> 0 <= word <= m_max_vocab m -> e - b <= 2 ^ 32 ->
+  (Z.of_nat fuel >= Z.max 1 (e - b + 1)) ->
+  exists res, mid_find m fuel (mem' m recs next_end mem0) word b e = Some res /\
+    match res with
+    | Some (p, pay, cb, ce) => b <= p < e /\ word_of recs p = word /\ pay = pay_of recs p /\
+                               cb = next_of recs next_end p /\ ce = next_of recs next_end (p + 1)
+    | None => forall i, b <= i < e -> word_of recs i <> word
+    end.
+Proof. exact mid_refines. Qed.
